@@ -67,6 +67,18 @@ func (c04) Gen(r *rand.Rand, tier string, run int) *core.Case {
 		callers = 2 + r.IntN(2)
 		c.Params["callers"] = callers
 	}
+	// a fault batch: connections may be reset, closed by the server or fail a
+	// write in the middle of calls. Calls may then fail; a successful one must
+	// still carry its own answer and nothing may run twice.
+	if r.IntN(4) == 0 {
+		c.Batch = "faults"
+		c.Net.FaultGap = []int{30, 80, 200}[r.IntN(3)]
+		c.Net.FaultKind = []string{simnet.FReset, simnet.FClosePeer, simnet.FWriteErr}
+		c.Net.LateWrite = r.IntN(2) == 0
+		c.Params["raw"] = 0
+	} else {
+		c.Batch = "fault-free"
+	}
 	kinds := []string{"echo", "echo", "echo", "noarg", "fire", "slow", "cancel-echo", "cancel-noarg"}
 	for k := 0; k < callers; k++ {
 		n := 1 + r.IntN(4)
@@ -108,6 +120,7 @@ type c04raw struct {
 func (c04) Run(c *core.Case, env *core.Env) {
 	st := &c04state{}
 	env.Set("st", st)
+	env.NW.PauseFaults(true) // faults hit the calls, not the set-up
 	w, err := StartServer(env, bus.Dictionary(map[string]string{"u": "p"}), c.P("objects", 1))
 	if err != nil {
 		env.Violate("harness/setup", "%v", err)
@@ -153,6 +166,7 @@ func (c04) Run(c *core.Case, env *core.Env) {
 		st.raw = raw
 	}
 	env.Note("server up: %d objects, %d connections, %d actors", len(w.ObjIDs), nConn, len(actors))
+	env.NW.PauseFaults(false)
 	var wg sync.WaitGroup
 	for _, a := range actors {
 		ops := byActor[a]
@@ -415,6 +429,11 @@ func (c04) Check(c *core.Case, env *core.Env, res zzsim.Result, v *core.Verdict)
 	}
 	if noargExecs > noargFrames {
 		bad("exec/non-call-frame-ran-method", "noarg ran %d times but only %d call/post frames for it were sent", noargExecs, noargFrames)
+	}
+	for _, cn := range env.NW.Conns() {
+		if strings.HasPrefix(cn.Node(), "client") {
+			env.ProbeN("reply-read-before-send-returned", EarlyReplies(cn))
+		}
 	}
 	ov := overlapping(hs)
 	v.Nontrivial = ov > 0 && v.Stats.Switches > 0
